@@ -49,7 +49,12 @@ func replay(f lib.Flags) int {
 		return 2
 	}
 	m := lib.NewMonitor("replay", "")
-	if op := fmt.Sprint(in["op"]); segOps[op] {
+	if op := fmt.Sprint(in["op"]); floatOps[op] != "" {
+		// the float clauses (breakpoints + accumulated rounding bound) on a rounding Sum / SumMagnitude
+		c := scase{Op: op, L: fmt.Sprint(in["l"])}
+		floatClauses(m, c)
+		fmt.Printf("replay %s -> code=%s\n", c.line(), scase{floatOps[op], "", c.L, ""}.runCode().text)
+	} else if segOps[op] {
 		c := scase{Op: op, L: fmt.Sprint(in["l"])}
 		if d, ok := in["d"]; ok {
 			c.D = fmt.Sprint(d)
